@@ -16,11 +16,159 @@ def run(ck):
         cases.append(c)
     ck.stream("random-schedules", cases, "C01_lts", "C01_lts", "C01_ok",
               nontrivial=lambda c: len(c[4]) >= 3 and c[1] >= 2, sig=lambda c, e, o: "lts", timeout=1500)
+    aggregated(ck)
     transports(ck)
     buffer_independence(ck)
-    return ck.finish(rule="(3) adapter buffers: " + POOL_RULE + " (2) transport adapters: " + TRANSPORT_RULE + " (1) random schedules of publisher / attach / stop / consumer goroutines (1-4 consumers, <= 20 packets on the "
+    return ck.finish(rule="(4) packets by bytes: " + AGG_RULE + " (3) adapter buffers: " + POOL_RULE + " (2) transport adapters: " + TRANSPORT_RULE + " (1) random schedules of publisher / attach / stop / consumer goroutines (1-4 consumers, <= 20 packets on the "
                           "video and audio channels incl. parameter sets and key frames, GOP cache on/off) replayed through the "
                           "schedule points on a real media.Stream with recording consumers; non-trivial = >= 2 consumers and >= 3 packets")
+
+
+# ---------------------------------------------------------------- packets given by their bytes
+# A case entry (id _ channel xPAYLOAD) is a packet given by its RTP payload (coq/Model/C04RawPkt.v; the
+# harness builds it with lts.MakeRaw and reads the id back from payload[1..4]).  Its kind in the model is
+# what coq/Model/C02Classify.v makes of the bytes: one kind per packet, so one slot of the pack cache and
+# one place in a join replay (C01_join_prefix_nodup, C01_agg_packet_one_kind).
+AGG_RULE = ("H.264 and H.265 streams (GOP cache on/off) whose video packets are given by their bytes: aggregation packets "
+            "(RFC 6184 STAP-A / RFC 7798 AP) carrying every non-empty subset of the parameter sets (SPS, PPS / VPS, SPS, PPS) in "
+            "any order, alone or followed by an IDR/IRAP or a non-key unit, aggregation packets without parameter sets, single "
+            "parameter-set units, between ordinary video/audio packets; 2-4 consumers, at least one attached from the start and "
+            "one joining right after an aggregation packet with parameter sets (scripted), plus random schedules over the same "
+            "packet lists; oracle ok_C01 on the case normalised by the classifier (C01_model_passes_on_the_wire_raw); "
+            "non-trivial = a consumer was replayed a multi-parameter-set aggregation packet.")
+
+H264_T = {"sps": 7, "pps": 8, "idr": 5, "non": 1}
+H265_T = {"vps": 32, "sps": 33, "pps": 34, "idr": 19, "cra": 21, "non": 1}
+
+def nal_unit(rng, h265, what, body_len):
+    """one NAL unit: header (1 byte H.264, 2 bytes H.265) + body"""
+    body = bytes(rng.randrange(256) for _ in range(body_len))
+    if h265:
+        return bytes([H265_T[what] << 1, 1]) + body
+    nri = 0 if what == "non" and rng.random() < 0.3 else rng.choice([1, 2, 3])
+    return bytes([(nri << 5) | H264_T[what]]) + body
+
+def agg_payload(rng, h265, units, n):
+    """aggregation packet of the given unit kinds; payload[1..4] (= the id the harness reads back) is made unique
+    by n (1..250): H.264 through the second byte of the first unit, H.265 through the size of the first unit"""
+    nals = []
+    for j, w in enumerate(units):
+        if j == 0:
+            nals.append(nal_unit(rng, h265, w, n if h265 else rng.randint(2, 6)))
+        else:
+            nals.append(nal_unit(rng, h265, w, rng.randint(1, 9)))
+    if not h265:
+        nals[0] = nals[0][:1] + bytes([n]) + nals[0][2:]
+    hdr = bytes([48 << 1, 1]) if h265 else bytes([(rng.choice([1, 2, 3]) << 5) | 24])
+    pl = hdr + b"".join(len(x).to_bytes(2, "big") + x for x in nals)
+    return pl
+
+def raw_video(pl):
+    return [int.from_bytes(pl[1:5], "big"), 0, 0, pl]
+
+def single_payload(rng, h265, what, n):
+    """a single NAL unit packet whose payload[1..4] is unique through n"""
+    if h265:
+        return bytes([H265_T[what] << 1, 1, 0xA0 | rng.randrange(16), n, rng.randrange(256)]) + bytes(rng.randrange(256) for _ in range(rng.randint(0, 5)))
+    u = nal_unit(rng, False, what, 6)
+    return u[:1] + bytes([0xA0 | rng.randrange(16), rng.randrange(256), n]) + u[4:]
+
+def param_subsets(h265):
+    names = ["vps", "sps", "pps"] if h265 else ["sps", "pps"]
+    return [[x for i, x in enumerate(names) if m >> i & 1] for m in range(1, 1 << len(names))]
+
+def agg_packets(rng, h265, count):
+    """a packet list: ordinary packets by kind (small ids) and packets by bytes (ids >= 65536); returns
+    (packets, indices of the aggregation packets that carry >= 2 kinds of parameter set)"""
+    subsets = param_subsets(h265)
+    pkts, multi, n, small = [], [], 0, 0
+    def plain(kind):
+        nonlocal small
+        small += 1
+        pkts.append([small, kind])
+    while len(pkts) < count:
+        r = rng.random()
+        n += 1
+        if r < 0.42:
+            units = list(rng.choice(subsets)) if rng.random() < 0.5 else list(max(subsets, key=len))
+            rng.shuffle(units)
+            t = rng.random()
+            if t < 0.3:
+                units.append(rng.choice(["idr", "cra"]) if h265 else "idr")
+            elif t < 0.4:
+                units.append("non")
+            if len(set(units) & {"vps", "sps", "pps"}) >= 2:
+                multi.append(len(pkts))
+            pkts.append(raw_video(agg_payload(rng, h265, units, n)))
+        elif r < 0.5:
+            units = rng.choice([["idr", "non"], ["non", "non"], ["non"], ["idr"]])
+            pkts.append(raw_video(agg_payload(rng, h265, units, n)))
+        elif r < 0.6:
+            pkts.append(raw_video(single_payload(rng, h265, rng.choice(["vps", "sps", "pps"] if h265 else ["sps", "pps"]), n)))
+        elif r < 0.7:
+            plain(2)
+        elif r < 0.9:
+            plain(1)
+        else:
+            plain(0)
+    return pkts, multi
+
+def agg_script(rng, h265, gop):
+    """consumer 0 from the start; a joiner right after each of up to two multi-parameter-set aggregation packets;
+    everything is delivered"""
+    while True:
+        pkts, multi = agg_packets(rng, h265, rng.randint(5, 11))
+        if multi:
+            break
+    joins = sorted({min(len(pkts) - 1, i + rng.choice([0, 0, 0, 1, 2]))      # right after it, or a packet or two later
+                    for i in rng.sample(multi, min(len(multi), rng.choice([1, 2, 2])))})
+    n = 1 + len(joins)
+    sched = [[G.ATT, 0]] * 3
+    who = 1
+    for i in range(len(pkts)):
+        sched += [[G.PUB, 0]] * 3
+        if rng.random() < 0.7:
+            sched += [[G.CONS, 0]] * 2
+        if i in joins:
+            sched += [[G.ATT, who]] * 3
+            who += 1
+    for c in range(n):
+        sched += [[G.CONS, c]] * (2 * len(pkts) + 8)
+    return [G.FIXED, n, 1000, gop, pkts, [False] * n, sched, [0] * n, False, 1, h265, False, False]
+
+def agg_random(rng, h265, gop):
+    c = G.rand_case(rng, G.FIXED, max_cons=4, max_pkts=4, max_len=90, with_close=rng.random() < 0.2, panic_p=0.05, flv_p=0)
+    pkts, _ = agg_packets(rng, h265, rng.randint(3, 12))
+    c[4], c[3], c[10], c[11] = pkts, gop, h265, False
+    c[6] = c[6] + G.drain(c[1], 2)
+    return c + [False]
+
+def aggregated(ck):
+    rng = ck.rng
+    cases = []
+    reps = 14 if ck.thorough else 2
+    for _ in range(reps):
+        for h265 in (False, True):
+            for gop in (False, True):
+                cases.append(agg_script(rng, h265, gop))
+    cases += [agg_random(rng, rng.random() < 0.6, rng.random() < 0.5) for _ in range(400 if ck.thorough else 36)]
+    scripted = {id(c) for c in cases[:reps * 4]}
+    obs = ck.stream("aggregated-parameter-sets", cases, "C01_lts", "C01_lts", "C01_ok",
+                    nontrivial=lambda c: id(c) in scripted, sig=lambda c, e, o: "lts-agg", timeout=1500)
+    # non-vacuity: late joiners really were replayed aggregation packets (ids >= 65536 at the head of what a
+    # consumer other than the first one received)
+    replayed = 0
+    for c, o in zip(cases, obs):
+        try:
+            v = vparse(o)
+            for k in v[0][1:]:
+                if k[0] and k[0][0] >= 65536:
+                    replayed += 1
+        except Exception:
+            pass
+    ck.extra["aggregation_packets_replayed_to_joiners"] = replayed
+    if obs and replayed < 4:
+        ck.broken.append(Broken("C01 aggregated-parameter-sets: only %d joiners were replayed an aggregation packet" % replayed))
 
 
 # ---------------------------------------------------------------- transport adapters
